@@ -305,6 +305,106 @@ func ecdsaOracles(c *sigCase, co ecCombo, enc string, d, qx, qy *big.Int) {
 	}
 }
 
+// ---------------------------------------------------------------------------------------------
+// externally made VALID signatures of extreme shape (accept side)
+//
+// A signer never emits r = x(kG) mod n with several leading zero bytes or s = 1: the nonce is
+// random.  Knowing the nonce one can go the other way: choose k and s, and take the private key
+// d = (s*k - z) * r^-1 mod n for the message's z; (r, s) is then a genuine signature of the message
+// under Q = d*G (u1*G + u2*Q = ((z + r*d)/s)*G = k*G).  The textbook reference decides, as always.
+
+// shortRNonces: nonces k whose r = x(kG) mod n has at most maxBits bits (leading zero bytes in the
+// fixed-width form, a short DER INTEGER).  The big ones were found by a search over k = 1..2^21
+// (two and three leading zero bytes); the claim is re-checked whenever an entry is used.
+var shortRNonces = map[string][]struct {
+	k       int64
+	maxBits int
+}{
+	"P256": {{379, 248}, {40393, 238}, {771992, 236}, {1340330, 235}, {1476301, 227}},
+	"P384": {{197, 376}, {530061, 365}, {621350, 364}, {1848377, 362}, {1769552, 362}},
+	"P521": {{10735, 502}, {573433, 501}, {1620592, 500}, {735251, 500}},
+}
+
+type craftedECDSA struct {
+	d, k, r, s   *big.Int
+	kKind, sKind string
+}
+
+func (x *craftedECDSA) String() string {
+	return fmt.Sprintf("key derived from a chosen signature: nonce k=%s (%s), s=%x (%s), r=x(kG) mod n=%x (%d bits)", x.k.Text(10), x.kKind, x.s, x.sKind, x.r, x.r.BitLen())
+}
+
+// craftECDSA chooses (k, s) and derives the key for which (x(kG) mod n, s) signs effMsg.  It returns
+// nil in the (practically impossible) event that r or d comes out as zero.
+func craftECDSA(t *rapid.T, co ecCombo, effMsg []byte) *craftedECDSA {
+	n := co.c.Params().N
+	size := sigref.ScalarSize(co.c)
+	one := big.NewInt(1)
+	n1 := new(big.Int).Sub(n, one)
+	x := &craftedECDSA{}
+	x.kKind = rapid.SampledFrom([]string{"short-r", "short-r", "short-r", "k=1", "k=2", "k=n-1", "uniform"}).Draw(t, "craft_k_kind")
+	maxBits := n.BitLen()
+	switch x.kKind {
+	case "short-r":
+		e := rapid.SampledFrom(shortRNonces[co.short]).Draw(t, "craft_k")
+		x.k, maxBits = big.NewInt(e.k), e.maxBits
+	case "k=1":
+		x.k = big.NewInt(1)
+	case "k=2":
+		x.k = big.NewInt(2)
+	case "k=n-1":
+		x.k = new(big.Int).Set(n1)
+	default:
+		x.k = new(big.Int).SetBytes(gen.BytesN(t, "craft_k", size))
+		x.k.Mod(x.k, n1).Add(x.k, one)
+	}
+	px, _ := co.c.ScalarBaseMult(x.k.FillBytes(make([]byte, size)))
+	x.r = new(big.Int).Mod(px, n)
+	if x.r.BitLen() > maxBits {
+		t.Fatalf("harness: x(%s*G) mod n on %s has %d bits, table says <= %d", x.k.Text(10), co.short, x.r.BitLen(), maxBits)
+	}
+	x.sKind = rapid.SampledFrom([]string{"s=1", "small", "small", "lead0", "pow2", "s=n-1", "uniform"}).Draw(t, "craft_s_kind")
+	switch x.sKind {
+	case "s=1":
+		x.s = big.NewInt(1)
+	case "small":
+		x.s = big.NewInt(int64(rapid.IntRange(2, 300).Draw(t, "craft_s")))
+	case "lead0":
+		raw := gen.BytesN(t, "craft_s", size)
+		z := rapid.IntRange(1, 3).Draw(t, "craft_s_zeros")
+		if size == 66 {
+			z++
+		}
+		for i := 0; i < z; i++ {
+			raw[i] = 0
+		}
+		raw[size-1] |= 1 // not zero
+		x.s = new(big.Int).SetBytes(raw)
+	case "pow2": // 2^j or 2^j - 1, below n
+		j := rapid.IntRange(1, n.BitLen()-1).Draw(t, "craft_s_j")
+		x.s = new(big.Int).Lsh(one, uint(j))
+		if rapid.Bool().Draw(t, "craft_s_minus1") {
+			x.s.Sub(x.s, one)
+		}
+	case "s=n-1":
+		x.s = new(big.Int).Set(n1)
+	default:
+		x.s = new(big.Int).SetBytes(gen.BytesN(t, "craft_s", size))
+		x.s.Mod(x.s, n1).Add(x.s, one)
+	}
+	z := sigref.Bits2Int(sigref.Digest(co.hash, effMsg), n)
+	rinv := new(big.Int).ModInverse(x.r, n)
+	if rinv == nil {
+		return nil
+	}
+	x.d = new(big.Int).Mul(x.s, x.k)
+	x.d.Sub(x.d, z).Mul(x.d, rinv).Mod(x.d, n)
+	if x.d.Sign() == 0 {
+		return nil
+	}
+	return x
+}
+
 func TestECDSA(t *testing.T) {
 	rapid.Check(t, func(rt *rapid.T) {
 		detrand.Seed(rapid.Uint64().Draw(rt, "entropy"))
@@ -313,6 +413,17 @@ func TestECDSA(t *testing.T) {
 		route, variant, id := drawRouteVariantID(rt)
 		d, note := drawScalar(rt, co.c)
 		msg := gen.Bytes(rt, "msg", 1024)
+		// one case in five: the key is the one under which a chosen (r, s) of extreme shape signs msg
+		var crafted *craftedECDSA
+		if rapid.IntRange(0, 4).Draw(rt, "crafted") == 0 {
+			effMsg := bytes.Clone(msg)
+			if variant == tk.Legacy {
+				effMsg = append(effMsg, 0)
+			}
+			if crafted = craftECDSA(rt, co, effMsg); crafted != nil {
+				d, note = crafted.d, crafted.String()
+			}
+		}
 
 		size := sigref.ScalarSize(co.c)
 		scalar := d.FillBytes(make([]byte, size))
@@ -401,6 +512,29 @@ func TestECDSA(t *testing.T) {
 		}
 		for _, k := range cands {
 			c.tryRaw(rt, k.kind, k.raw, msg)
+		}
+		if crafted != nil {
+			var rawc []byte
+			var cc []cand
+			if enc == sigref.DER {
+				rawc, cc = sigref.EncodeDER(crafted.r, crafted.s), derCandidates(rt, co.c, crafted.r, crafted.s)
+			} else {
+				rawc, cc = sigref.EncodeP1363(crafted.r, crafted.s, size), p1363Candidates(rt, co.c, crafted.r, crafted.s)
+			}
+			if !c.ref(rawc, c.eff(msg)) {
+				rt.Fatalf("%v\n harness: the textbook verifier rejects the crafted signature %x over %x", c, rawc, c.eff(msg))
+			}
+			before := c.accept
+			c.tryRaw(rt, "crafted-valid", rawc, msg)
+			for _, k := range cc { // the same re-encodings and substitutions, around the crafted values
+				c.tryRaw(rt, "crafted/"+k.kind, k.raw, msg)
+			}
+			evid.Add("crafted_valid_signatures_accepted_by_both", int64(c.accept-before))
+			evid.Add("crafted/nonce:"+crafted.kKind, 1)
+			evid.Add("crafted/s:"+crafted.sKind, 1)
+			if lz := size - (crafted.r.BitLen()+7)/8 - size/66; lz > 0 { // P-521's first byte holds one bit
+				evid.Add(fmt.Sprintf("crafted_r_leading_zero_bytes=%d", lz), 1)
+			}
 		}
 		c.finish(rt, msg, evid.NewH().B(scalar))
 	})
